@@ -17,6 +17,18 @@ BUCKET = {1: ('O', 29), 2: ('U', 23), 3: ('N', 21), 4: ('K', 19), 5: ('R', 23), 
 STATKEY = [('O', 'Opens'), ('U', 'Updates'), ('N', 'Notifications'), ('K', 'Keepalives'), ('R', 'RouteRefresh')]
 
 
+# model-level REST request kinds (Session.tla, action Rest) -> the real request and its description for the C16 clauses
+_RQ0 = {'cls': '', 'valid': False, 'etype': '', 'wdn': 0, 'nln': 0, 'ats': [], 'ibgp': False}
+_UPD_BODY = {'attr': {'1': 0, '2': [[2, [65001]]], '3': '10.0.0.1'}, 'nlri': ['10.5.0.0/16']}
+REST_KINDS = {
+    'SEND_UPDATE': ('send/update', 'POST', 'good', _UPD_BODY, dict(_RQ0, cls='send', valid=True, etype='UPDATE', nln=1, ats=[1, 2, 3])),
+    'SEND_RR': ('send/route-refresh', 'POST', 'good', {'afi': 1, 'safi': 1}, dict(_RQ0, cls='send', valid=True, etype='RR')),
+    'READ_STATE': ('state', 'GET', 'good', None, dict(_RQ0, cls='read')),
+    'BADCRED_SEND': ('send/update', 'POST', 'badpass', _UPD_BODY, dict(_RQ0, cls='send', valid=True, etype='UPDATE', nln=1, ats=[1, 2, 3])),
+    'BADCRED_STOP': ('manual-stop', 'GET', 'none', None, dict(_RQ0, cls='ctl')),
+}
+
+
 def world_cfg(consts, extra=None):
     """Model constants (ticks) -> agent configuration (seconds)."""
     tick = consts['TICKNUM'] / consts['TICKDEN']
@@ -95,8 +107,15 @@ class Recorder(object):
         ccs = w.cs(w.conn(real_c)) if real_c else 'none'
         if ev['k'] in ('msg', 'data'):
             self.note_delivery(real_c, data if data is not None else w.peer_bytes(e))
+        prestat = pre['o']['stat']
+        if ev['k'] == 'rest' and 'rule' not in ev:
+            rule, method, cred, body, rq = REST_KINDS[ev['m']]
+            e.update(rule=rule, method=method, cred=cred, body=body)
+            extra = dict(extra or {}, rq=rq)
         w.apply(e)
         o = w.observe()
+        if ev['k'] == 'rest':
+            extra = dict(extra or {}, statsame=(prestat == o['stat']))
         post = self.summ(o)
         for d in o['out']:
             b = BUCKET.get({'OPEN': 1, 'UPDATE': 2, 'NOTIFICATION': 3, 'KEEPALIVE': 4, 'RR': 5}.get(d['type'], 0))
@@ -122,6 +141,7 @@ class Recorder(object):
             'wR': [self.recv.get(tr, self.cnt())[b] for b, _ in STATKEY] if tr else [],
             'rest': self.rest_rec(o['rest']),
             'fz': '', 'flen': 0, 'probeok': True, 'aspathok': True, 'acc': 0, 'esub': 0,
+            'rq': {'cls': '', 'valid': False, 'etype': '', 'wdn': 0, 'nln': 0, 'ats': [], 'ibgp': False}, 'statsame': True,
         }
         if extra:
             line.update(extra)
@@ -134,6 +154,8 @@ class Recorder(object):
     @staticmethod
     def out_rec(d):
         r = {'c': d['c'], 'type': d['type'], 'code': d['code'], 'sub': d['sub'], 'len': d['len']}
+        if d['type'] == 'UPDATE':
+            r.update(wdn=d.get('wdn', -1), nln=d.get('nln', -1), ats=d.get('ats', []), lp=d.get('lp', -1))
         if d['type'] == 'OPEN':
             r.update(wf=bool(d.get('wf')), ver=d.get('ver', 0), my_as=d.get('my_as', 0), hold=d.get('hold', 0),
                      as_hi=d.get('as_hi', 0), as_lo=d.get('as_lo', 0), id_hi=d.get('id_hi', 0), id_lo=d.get('id_lo', 0),
@@ -143,12 +165,13 @@ class Recorder(object):
     @staticmethod
     def rest_rec(r):
         if not r:
-            return {'rule': '', 'method': '', 'cred': '', 'status': 0, 'ok': 0}
+            return {'rule': '', 'method': '', 'cred': '', 'status': 0, 'ok': 0, 'hasbin': False}
         js = r.get('json')
         ok = 0
         if isinstance(js, dict) and 'status' in js:
             ok = 1 if js['status'] is True else 2
-        return {'rule': r['rule'], 'method': r['method'], 'cred': r['cred'], 'status': r['status'], 'ok': ok}
+        return {'rule': r['rule'], 'method': r['method'], 'cred': r['cred'], 'status': r['status'], 'ok': ok,
+                'hasbin': isinstance(js, dict) and 'bin' in js}
 
 
 def compare(ms, o, lmap):
